@@ -257,7 +257,8 @@ class C02(MsgProp):
             s, _k = stream_mix(r, r.randrange(1, 8), maxlen=200)
             yield ("ITER " + hx(s), "raw-mixed", False)
         yield ("DEC " + hx(mk_frame(b"")), "empty", False)
-        yield ("DEC " + hx(mk_frame(b"\x3e")), "empty", False)
+        for b in range(256):
+            yield ("DEC " + hx(mk_frame(bytes([b]))), "one-byte-payload", True)
         # frames the real encoder produces from generated values of every type (text with 1..4-byte characters,
         # lists at every length class, MSM sets, bias lists), and variants of them with the checksum recomputed:
         # the decoder paths behind a *valid* prefix, which random payloads hardly ever reach
@@ -373,8 +374,10 @@ class C14(MsgProp):
             for L, style in ((5, "random"), (300, "zeros"), (300, "ones"), (700, "random")):
                 yield ("DEC " + hx(mk_frame(hostile_payload(r, n, L, style))), "shape-" + style, True)
         yield ("DEC " + hx(mk_frame(b"")), "empty", False)
-        for b in (0, 0x3e, 0xff):
-            yield ("DEC " + hx(mk_frame(bytes([b]))), "empty", False)
+        for b in range(256):
+            yield ("DEC " + hx(mk_frame(bytes([b]))), "one-byte-payload", True)
+            if b % 16 == 0:
+                yield ("DEC " + hx(mk_frame(bytes([b]), 63) + b"\x40\x50"), "one-byte-payload", True)
         for n in g.numbers:
             yield ("ENC " + g.message(r, n, "valid"), "typed-reverse", True)
         # well-formed bodies under another number: frames the real encoder produces for type A with the
@@ -604,6 +607,14 @@ class C15(MsgProp):
                 op = "ENC " + g.message(r, n, "safe", lens=k)
                 self.plan.append((n, k, descr, op))
                 yield (op, "count-%s" % kind, k > 0)
+                if k in (0, 1, cap):
+                    # the same list from a builder whose only earlier build was refused part-way (a count field that is
+                    # skipped rather than written shows only then)
+                    if not hasattr(self, "_fails"):
+                        self._fails = failing_builds(g, r, 1)[:12] + [bias_op(g, r, 1059, "df_msg1059_biases", "valid", "latefail")[4:]]
+                    op2 = "BUILDSEQ " + r.choice(self._fails) + " ; " + op[4:]
+                    self.plan.append((n, k, descr, op2))
+                    yield (op2, "count-%s-used-builder" % kind, True)
 
     def run(self, ctx):
         extra = super().run(ctx)
@@ -616,6 +627,8 @@ class C15(MsgProp):
             ans = ctx.run_all([exe], ops, 20.0)
             decs, meta = [], []
             for (n, k, descr, op), a in zip(self.plan, ans):
+                if op.startswith("BUILDSEQ "):
+                    a = a.split(" ; ")[-1].strip()      # the frame of the last build of the session
                 if a.startswith("ERR") or a in ("PANIC", "BAD-OP", "CRASH", "HANG"):
                     fails += 1
                     self.fail(ctx, op, prof, f"list of {k} elements (capacity {descr[0][1]}) not encoded: {a}")
@@ -824,10 +837,11 @@ class C16(MsgProp):
                 # the bias of every entry comes back on its grid (distinct keys: match by key)
                 bin_ = dict(self.entries(n, op.split()[2:], True))
                 bout = dict(self.entries(n, a.split()[2:], True))
-                step, lim = (0.02, 655.0) if n == 1230 else (0.01, 81.9)
+                # the field's own range, both ends included (16-bit: -655.36 .. 655.34 m; 14-bit: -81.92 .. 81.91 m)
+                step, lo_, hi_ = (0.02, -655.36, 655.34) if n == 1230 else (0.01, -81.92, 81.91)
                 if len(bin_) == len(ein):
                     for key, b in bin_.items():
-                        if key in bout and b == b and abs(b) < lim and abs(bout[key] - b) > step / 2 + 1e-3 * step + abs(b) * 1e-6:
+                        if key in bout and b == b and lo_ - step / 4 <= b <= hi_ + step / 4 and abs(bout[key] - b) > step / 2 + 1e-3 * step + abs(b) * 1e-6:
                             fails += 1
                             self.fail(ctx, op, prof, f"bias of entry {key} is {b} and comes back as {bout[key]}")
                             break
